@@ -26,7 +26,7 @@ def one(name):
         env = dict(os.environ, VERIF_REPO=scratch, VERIF_OUT=scratch + "/out")
         os.makedirs(scratch + "/out", exist_ok=True)
         rc, out = sh("./check %s --tier quick" % pid, cwd=VERIF, env=env)
-        rules = sorted(set(re.findall(r"rule (R\w+)", out)))
+        rules = sorted(set(re.findall(r"rule (\w+):", out)))
         return name, pid, rc, ",".join(rules) + ("" if rc in (0, 1) else " | " + out.strip().splitlines()[-1][:150])
     finally:
         shutil.rmtree(scratch, ignore_errors=True)
